@@ -81,6 +81,8 @@ where
 {
     data: Option<D>,
     pos: usize,
+    /// Whether the most recently yielded item is the one marked with `L::MAX`.
+    last: bool,
     _ghost: PhantomData<&'a (L, T)>,
 }
 
@@ -94,6 +96,7 @@ where
         Self {
             data: Some(data),
             pos: 0,
+            last: false,
             _ghost: PhantomData,
         }
     }
@@ -137,6 +140,7 @@ where
             }));
         }
 
+        self.last = last;
         let data = if !last {
             let (data, next_data) = data.split(next_offset);
             self.data = Some(next_data);
@@ -171,9 +175,12 @@ where
             Some(payload) => payload,
             None => return Self::OFFSET_SIZE,
         };
-        match iter.data {
-            Some(_) => iter.pos + Self::OFFSET_SIZE,
-            None => iter.pos + ceil_mul(T::from_bytes(last_payload).unwrap().size(), Self::ALIGN),
+        if iter.last {
+            // `iter.pos` is the position of the slot marked with `L::MAX`.
+            iter.pos + Self::OFFSET_SIZE + ceil_mul(T::from_bytes(last_payload).unwrap().size(), Self::ALIGN)
+        } else {
+            // `iter.pos` is the position of the terminating zero slot.
+            iter.pos + Self::OFFSET_SIZE
         }
     }
 }
